@@ -219,7 +219,7 @@ def files(ctx: Ctx):
     n = ctx.n(120, 1500)
     focus = {'p_bg': 0.0, 'p_custom': 1.0, 'p_pam': 0.3, 'allow_junction_pam': False,
              'custom_kinds': ['snv', 'mnv', 'ins', 'ins', 'del', 'del', 'delins_u', 'delins_a', 'padded', 'mono', 'multi'],
-             'n_custom': [1, 2, 3, 5, 8], 'p_lower': 0.25}
+             'n_custom': [1, 2, 3, 5, 8], 'p_lower': 0.25, 'int_id_tags': True}
     designs = [gen.gen_sge(ctx.rng, focus) for _ in range(n)]
     for i, d in enumerate(designs):
         if i % 4 == 2:
